@@ -1,6 +1,7 @@
 #!/bin/bash
 # runs every check's thorough tier in turn; prints one line per property
 cd "$(dirname "$0")/.."
+mkdir -p work
 for i in ${IDS:-C01 C02 C03 C04 C06 C07 C08 C09 C10 C11 C12 C13 C14 C15 C16 C17 C18 C19 C20 C05}; do
   s=$(date +%s)
   ./check $i --tier thorough --seed ${VERIF_SEED:-1} > work/thorough_$i.log 2>&1
